@@ -195,6 +195,8 @@ func (f *FailoverOf[V]) Get(
 		}
 
 		val = v
+	} else {
+		val = v // Too stale value (if any) is served only if update fails.
 	}
 
 	// Check if update failed recently.
@@ -263,6 +265,9 @@ func (f *FailoverOf[V]) freshEnough(err error) (val V, _ bool) {
 		if f.config.MaxStaleness == 0 || time.Since(errExpired.ExpiredAt()) < f.config.MaxStaleness {
 			return errExpired.Value(), true
 		}
+
+		// Value is too stale to be served immediately, it is only a fallback for update failure.
+		return errExpired.Value(), false
 	}
 
 	return val, false
